@@ -17,7 +17,19 @@ def step : Handler := fun j => do
     | "hoist" => pure Rule.hoist
     | "pull" => do pure (Rule.pull (← nat (← field j "j")))
     | r => throw s!"unknown rule {r}"
+  -- side conditions of `C01.pull_preserves`, evaluated on this concrete step
+  let side : Bool := match rule, applyRule rule path b with
+    | .pull _, some b' =>
+      (match stmtAt path b' with
+       | some (.setup a fs) =>
+         (match insertAt path (.setup a fs) b, insertAt path (.ghost a fs) b with
+          | some b2, some bg =>
+            (blockToJson b2).compress == (blockToJson b').compress && noGhostB b' && wfB bg && okBb fields bg noFacts
+          | _, _ => false)
+       | _ => false)
+    | _, _ => true
   return Json.mkObj [
+    ("side", Json.bool side),
     ("after", jOpt blockToJson (applyRule rule path b)),
     ("points", jList (jList pairToJson) (annotB fields b noFacts)),
     ("wf", Json.bool (wfB b)), ("nodup", Json.bool (nodupB b))]
